@@ -150,7 +150,18 @@ void fp18_mul_dxs_basic(fp18_t c, const fp18_t a, const fp18_t b) {
 		fp9_new(t2);
 
 		/* Karatsuba algorithm. */
-
+		if (ep3_curve_is_twist() == RLC_EP_DTYPE) {
+			/* The line of a D-type twist has the other sparse shape. */
+			fp9_mul(t0, a[0], b[0]);
+			fp9_mul(t1, a[1], b[1]);
+			fp9_add(t2, b[0], b[1]);
+			fp9_add(c[1], a[0], a[1]);
+			fp9_mul(c[1], c[1], t2);
+			fp9_sub(c[1], c[1], t0);
+			fp9_sub(c[1], c[1], t1);
+			fp9_mul_art(t1, t1);
+			fp9_add(c[0], t0, t1);
+		} else {
 		/* t0 = a_0 * b_0. */
 		fp9_mul_dxs(t0, a[0], b[0]);
 #if EP_ADD == BASIC
@@ -187,6 +198,7 @@ void fp18_mul_dxs_basic(fp18_t c, const fp18_t a, const fp18_t b) {
 		/* c_0 = a_0b_0 + v * a_1b_1. */
 		fp9_mul_art(t1, t1);
 		fp9_add(c[0], t0, t1);
+		}
 	} RLC_CATCH_ANY {
 		RLC_THROW(ERR_CAUGHT);
 	} RLC_FINALLY {
